@@ -129,6 +129,12 @@ def _names():
         "const int n = 8;\ndef f(int a) -> int[n] { const int n = 16; return a; }\n",
         "const int n = 4;\nqubit[n] n2; bit[n] c; int[n] w;\nconst int m = n; qubit[m] q3;\n",
         "qubit[3] q;\nconst int q2 = 3; bit[q2] q3;\n",
+        # one constant NAME with different values in nested scopes, used as a designator on every level, before and after
+        "const int n = 4; bit[n] outer; def f(qubit q) { const int n = 9; bit[n] inner; int[n] k; } int[n] after;\n",
+        "const int n = 4; int[n] a; if (true) { const int n = 16; int[n] b; uint[n] c; } int[n] d;\n",
+        "const int n = 4; int[n] a; for int i in [0:1] { const int n = 8; int[n] b; if (true) { const int n = 2; int[n] c; } int[n] e; } int[n] d;\n",
+        "const int n = 4; qubit[n] q1; bit[n] c1; def g() { const int n = 3; bit[n] c2; } def h() { bit[n] c3; const int n = 5; bit[n] c4; }\n",
+        "const int w = 8; const int n = w; int[n] a; if (true) { const int w = 16; int[w] b; int[n] c; }\n",
         "int a = 1;\ngate a x { }\nint a = 2;\n",
         "gate k q { }\nint k = 1;\nqubit t; k t;\n",
         "def d() { }\ngate d q { }\nqubit t; d t; d();\n",
